@@ -143,7 +143,7 @@ func genAction(c *sim.Ctx, cfg genCfg, names []string, guard bool) *ref.Action {
 	if cfg.native && c.Chance(1, 3, "native") {
 		a.Native = true
 		if cfg.stubs && c.Chance(1, 4, "stub") {
-			a.Stub = []string{"nil-err", "partial-err", "nil-bs"}[c.Intn(3, "stubkind")]
+			a.Stub = []string{"nil-err", "partial-err", "nil-bs", "no-events"}[c.Intn(4, "stubkind")]
 		}
 	}
 	n := 1 + c.Intn(4, "nops")
@@ -412,6 +412,9 @@ func nativeAction(a *ref.Action) *core.FuncAction {
 			return exe, errStub
 		case "nil-bs":
 			return core.NewExecution(nil), nil
+		case "no-events":
+			// an Execution built by hand, without the constructor
+			return &core.Execution{Bs: match.Bindings{"made": "by hand"}}, nil
 		}
 		var w map[string]interface{}
 		if in != nil {
